@@ -36,7 +36,9 @@ def sym_tail(ctx, cfg):
     zfp = [z3.Int("feat_pass_%d" % k) for k in range(folds)]
     for z in zfp:
         ctx.assume(z3.And(z >= 0, z <= N))
-    zdesc = z3.Bool("best_feat_desc")
+    zdescs = [z3.Bool("best_feat_desc_%d" % k) for k in range(folds)]
+    zbf = [z3.Bool("best_feat_is_f1_%d" % k) for k in range(folds)]
+    chosen_feats = [None] * folds  # the folds need not agree on the best feature, nor on its direction
     log = {}
     fail = {1: "worse", 2: "worse"} if state == "failed" else {}
     model = brewlib.StubModel(log, decision_function=False, fail=fail, override=(state == "override"))
@@ -48,8 +50,9 @@ def sym_tail(ctx, cfg):
 
     def fit(self, train_set):
         self.feat_pass = SNum(zfp[self.fold - 1], (0, N))
-        self.desc = SBool(zdesc)
-        self.best_feat = "f1"
+        self.desc = SBool(zdescs[self.fold - 1])
+        self.best_feat = "f1" if SBool(zbf[self.fold - 1]) else "rowid"
+        chosen_feats[self.fold - 1] = self.best_feat
         return orig_fit(self, train_set)
     model.fit = None
     brewlib.StubModel.fit = fit
@@ -57,7 +60,7 @@ def sym_tail(ctx, cfg):
     ctx.assume(z3.And(tfdr > 0, tfdr <= 1))
     real_tdc = Q.__dict__["tdc"]
     Q.__dict__["tdc"] = tdc_by_spec(ctx)
-    inputs = dict(files=brewlib.dataset_inputs([s]), feat_pass=[SNum(z) for z in zfp], best_desc=SBool(zdesc), test_fdr=SNum(tfdr), state=state, scores=_Scores(log, N))
+    inputs = dict(files=brewlib.dataset_inputs([s]), feat_pass=[SNum(z) for z in zfp], best_descs=[SBool(z) for z in zdescs], best_feats=chosen_feats, test_fdr=SNum(tfdr), state=state, scores=_Scores(log, N))
     del model.fit
     try:
         _, models, scores, descs = B.brew([ds], model=model, test_fdr=SNum(tfdr), folds=folds, max_workers=1, rng=symnp.Generator("identity"))
@@ -88,9 +91,13 @@ def sym_tail(ctx, cfg):
     flat = _flatten(sc)
     props = [("score_count", z3.BoolVal(flat is not None and len(flat) == N))]
     if flat is not None and len(flat) == N:
-        is_feat = z3.And([core._z(flat[i]) == s["feat"][i] for i in range(N)])
+        def is_feature(k):
+            vals = s["feat"] if chosen_feats[k] == "f1" else [z3.RealVal(i) for i in range(N)]
+            return z3.And(z3.And([core._z(flat[i]) == vals[i] for i in range(N)]), core.zbool(descs[0]) == zdescs[k])
+        # the fold whose best feature accepted most (the first of them on a tie) provides feature and direction
+        is_best = z3.If(zfp[0] >= zfp[1], is_feature(0), is_feature(1)) if None not in chosen_feats else z3.BoolVal(True)
         is_model = z3.And([core._z(flat[i]) == mscores[i] for i in range(N)])
-        props.append(("falls_back_to_best_feature_when_it_accepts_more", z3.Implies(fallback, z3.And(is_feat, core.zbool(descs[0]) == zdesc))))
+        props.append(("falls_back_to_best_feature_when_it_accepts_more", z3.Implies(fallback, is_best)))
         props.append(("keeps_model_scores_otherwise", z3.Implies(z3.Not(fallback), z3.And(is_model, core.zbool(descs[0]) == z3.BoolVal(True)))))
         # (the fallback returns an (N, 1) array; the statement does not fix the shape and the replay confirms
         #  that confidence assignment accepts it, so no shape obligation is asserted)
@@ -175,7 +182,8 @@ def real_tail(cfg, inp):
     state = inp["state"]
     table = {(int(u), int(r)): float(v) for u, r, v in inp["scores"]}
     fp = [int(x) for x in inp["feat_pass"]]
-    bdesc = bool(inp["best_desc"])
+    bdescs = [bool(x) for x in inp["best_descs"]]
+    bfeats = list(inp["best_feats"])
     log = {}
 
     class Mdl:
@@ -194,7 +202,7 @@ def real_tail(cfg, inp):
             return m
 
         def fit(self, train_set):
-            self.feat_pass, self.desc, self.best_feat = fp[self.fold - 1], bdesc, "f1"
+            self.feat_pass, self.desc, self.best_feat = fp[self.fold - 1], bdescs[self.fold - 1], bfeats[self.fold - 1] or "f1"
             if state == "failed":
                 raise RuntimeError("Model performs worse after training.")
             self.is_trained = True
@@ -228,14 +236,16 @@ def real_tail(cfg, inp):
             return dict(skip=True)
         acc = sum(1 for l in lab if l == 1)
         fallback = state != "override" and max(fp) > acc
-        feat = [float(x) for x in rows["f1"]]
+        kbest = 0 if fp[0] >= fp[1] else 1
+        feat = [float(x) for x in rows["f1"]] if (bfeats[kbest] or "f1") == "f1" else [float(i) for i in range(n)]
+        bdesc = bdescs[kbest]
         flat = sc.reshape(-1)
         if len(flat) != n:
             return dict(violation="%d scores for %d PSMs" % (len(flat), n))
         if fallback:
             if not np.allclose(flat, feat) or list(descs) != [bdesc]:
-                return dict(violation="best feature accepts %d targets, the returned scores only %d (labels %s), yet brew returned scores %s descs %s instead of the feature %s with direction %s"
-                            % (max(fp), acc, cfg["labels"], flat.tolist(), list(descs), feat, bdesc))
+                return dict(violation="best feature accepts %d targets, the returned scores only %d (labels %s), yet brew returned scores %s descs %s instead of the feature %r = %s with direction %s of fold %d (per-fold best features %s, accepted %s, directions %s)"
+                            % (max(fp), acc, cfg["labels"], flat.tolist(), list(descs), bfeats[kbest], feat, bdesc, kbest + 1, bfeats, fp, bdescs))
             if sc.ndim != 1:
                 # the statement does not fix the array shape; confidence assignment must accept what brew returns
                 try:
